@@ -181,8 +181,17 @@ def barstate_part(prop, tier, seed):
 
 
 PARTS = {p: [sched_part] for p in SCHED_PLANS}
-PARTS["C09"] = [barstate_part]
+SCHED_PLANS["C09"] = [("base", 150, 3000), ("stop", 50, 1000)]
+PARTS["C09"] = [barstate_part, sched_part]
 PARTS["C11"] = [barstate_part, sched_part]
+
+
+def lin_part(prop, tier, seed):
+    from . import lin
+    return lin.run(prop, tier, seed)
+
+
+PARTS["C10"] = [lin_part]
 LEVEL = {"C15": "fault_enumeration"}
 
 
